@@ -14,7 +14,10 @@ RULE = ('stub package of 6 user-defined chemicals with dyadic MW, Hf, Hvap(298.1
         '(constructed or re-based), single / parallel / series / system of 1-4 reactions, phase-less on a Stream and '
         'phase-tagged on a MultiStream (phases gl, ls, gls, and Lgl for the invalid-phase branch of dH), T in '
         '{298.15, 280, 320, 350, 400, 450}, heat input in {0, +-dyadic}; operations: dH of every member, isothermal call, '
-        'adiabatic_reaction(stream, Q), plus empty streams, non-stream arguments and infeasible conversions. Compared: dH of '
+        'adiabatic_reaction(stream, Q), plus empty streams, non-stream arguments and infeasible conversions. Phase-tagged '
+        'reactions are also defined from (phase x chemical) arrays and as sums r1 + r2, so that a chemical takes part in two '
+        'phases; 30 % of the cases first reassign conversions through the set, its items, slices and the system while the '
+        'observed handles were all obtained before. Compared: what every handle reads as X, dH of '
         'each member (value or exception class), Hnet before, exception class, flows, T and Hnet after (1e-9 relative). '
         'non-trivial = a dH is non-zero or the call changed the stream or raised')
 ASSUMPTIONS = ['H/T inversion (mixture.solve_T_at_HP, xsolve_T_at_HP; flexsolve inside) is an oracle with the contract '
@@ -73,8 +76,76 @@ def gen_rxn(rng, phases, basis):
     form = rng.choice(['str', 'dict'])
     order = [c for c in chems if coef[c] < 0] + [c for c in chems if coef[c] > 0]
     terms = [[rng.choice(phases) if phases else None, IDS[c], float(coef[c])] for c in order]
-    return {'terms': terms, 'form': form, 'reactant': IDS[reactant], 'X': float(rng.choice(XS)),
+    spec = {'terms': terms, 'form': form, 'reactant': IDS[reactant], 'X': float(rng.choice(XS)),
             'basis': construct_basis, 'rebase': basis if construct_basis != basis else None}
+    real = [p for p in phases if p in 'gls']
+    if len(real) >= 2 and 'L' not in phases:
+        u = rng.random()
+        if u < 0.3:
+            # defined from a (phase x chemical) array: a chemical other than the reactant may sit in two phases
+            spec['form'] = 'array'
+            for t in list(terms):
+                if t[1] != spec['reactant'] and rng.random() < 0.6:
+                    other = rng.choice([p for p in real if p != t[0]])
+                    spec['terms'].append([other, t[1], float(rng.choice(COEFS)) * (MW[IDS.index(t[1])] if construct_basis == 'wt' else 1)
+                                          * (1 if t[2] > 0 else -1)])
+        elif u < 0.55:
+            # the sum of two reactions with the same reactant whose other species sit in other phases
+            second = [[(rng.choice([p for p in real if p != t[0]]) if t[1] != spec['reactant'] and rng.random() < 0.7 else t[0]),
+                       t[1], t[2]] for t in terms]
+            spec['plus'] = {'terms': second, 'X': float(rng.choice(XS))}
+    return spec
+
+def groups_of(case):
+    return [[case['kind'], list(range(len(case['rxns'])))]] if case['kind'] != 'system' else case['parts']
+
+def gen_xhist(rng, case):
+    """assignments of conversions through the set, its items, slices and the system, in any order"""
+    groups = groups_of(case)
+    sets = [g for g, (k, idx) in enumerate(groups) if k != 'single']
+    n = len(case['rxns'])
+    ops = []
+    def x(): return float(rng.choice(XS))
+    for _ in range(rng.randint(1, 4)):
+        kinds = ['itemX'] + (['setX', 'setX', 'setXs', 'idxX', 'sliceX'] if sets else []) + (['sysX'] if case['kind'] == 'system' else [])
+        o = rng.choice(kinds)
+        if o == 'itemX': ops.append([o, rng.randrange(n), x()])
+        elif o == 'sysX': ops.append([o, [[x() for _ in idx] if k != 'single' else x() for k, idx in groups]])
+        else:
+            g = rng.choice(sets); m = len(groups[g][1])
+            if o == 'setX': ops.append([o, g, [x() for _ in range(m)]])
+            elif o == 'setXs': ops.append([o, g, x()])
+            elif o == 'idxX': ops.append([o, g, rng.randrange(m), x()])
+            else:
+                lo = rng.randrange(m)
+                ops.append([o, g, lo, [x() for _ in range(m - lo)]])
+    return ops
+
+def flat_writes(case):
+    """the same history as writes into the conversions of the members, in member order"""
+    groups = groups_of(case)
+    w = []
+    for op in case.get('xhist', []):
+        o = op[0]
+        if o == 'itemX': w.append(['w', op[1], op[2]])
+        elif o == 'sysX':
+            for (k, idx), v in zip(groups, op[1]):
+                w.append(['r', idx[0], v if k != 'single' else [v]])
+        else:
+            idx = groups[op[1]][1]
+            if o == 'setX': w.append(['r', idx[0], op[2]])
+            elif o == 'setXs': w.append(['r', idx[0], [op[2]] * len(idx)])
+            elif o == 'idxX': w.append(['w', idx[0] + op[2], op[3]])
+            elif o == 'sliceX': w.append(['r', idx[0] + op[2], op[3]])
+    return w
+
+def final_X(case):
+    xs = [s['X'] for s in case['rxns']]
+    for w in flat_writes(case):
+        if w[0] == 'w': xs[w[1]] = w[2]
+        else:
+            for k, v in enumerate(w[2]): xs[w[1] + k] = v
+    return xs
 
 def gen_case(rng):
     phases = rng.choice([[], [], [], [], ['g', 'l'], ['l', 's'], ['g', 'l', 's'], ['L', 'g', 'l']])
@@ -110,6 +181,8 @@ def gen_case(rng):
     case['op'] = 'dH' if 'L' in phases else rng.choice(['adiabatic', 'adiabatic', 'isothermal'])
     case['Q'] = rng.choice(QS) if case['op'] == 'adiabatic' else 0.0
     case['not_stream'] = case['op'] == 'adiabatic' and rng.random() < 0.04
+    if not any('plus' in r for r in case['rxns']) and rng.random() < 0.3:
+        case['xhist'] = gen_xhist(rng, case)
     return case
 
 def _single(terms, reactant, X, basis='mol', rebase=None, phases=(), T=TREF, flows=None, op='isothermal', Q=0.0, kind='single', n=1):
@@ -136,42 +209,80 @@ def gen_cases(rng, tier):
 def errname(ex):
     return ERR.get(type(ex).__name__, 'EOther')
 
-def rxn_arg(case, spec):
+def rxn_arg(case, spec, terms=None):
     ph = case['phases']
+    terms = spec['terms'] if terms is None else terms
+    if spec['form'] == 'array':
+        a = [[0.0] * N for _ in ph]
+        for p, i, c in terms: a[ph.index(p)][IDS.index(i)] = c
+        return a
     if spec['form'] == 'str':
         def t(p, i, c):
             return f'{abs(c)!r} ' + (f'{i},{p}' if ph else i)
-        return (' + '.join(t(*x) for x in spec['terms'] if x[2] < 0) + ' -> '
-                + ' + '.join(t(*x) for x in spec['terms'] if x[2] > 0))
-    return {i: ((p, c) if ph else c) for p, i, c in spec['terms']}
+        return (' + '.join(t(*x) for x in terms if x[2] < 0) + ' -> '
+                + ' + '.join(t(*x) for x in terms if x[2] > 0))
+    return {i: ((p, c) if ph else c) for p, i, c in terms}
 
 def build_rxn(case, spec):
     tmo = env()['tmo']
-    r = tmo.Reaction(rxn_arg(case, spec), reactant=spec['reactant'], X=spec['X'], basis=spec['basis'],
-                     phases=''.join(case['phases']) or None)
+    kw = dict(reactant=spec['reactant'], basis=spec['basis'], phases=''.join(case['phases']) or None)
+    r = tmo.Reaction(rxn_arg(case, spec), X=spec['X'], **kw)
+    if spec.get('plus'):
+        r = r + tmo.Reaction(rxn_arg(case, spec, spec['plus']['terms']), X=spec['plus']['X'], **kw)
     if spec['rebase']:
         r = r.copy(spec['rebase'])
     return r
 
-def build_obj(case):
-    """returns (callable object, list of member reaction objects as the object exposes them)"""
+def build_obj(case, extra=None):
+    """returns (callable object, member handles obtained BEFORE any later assignment).  extra (dict) receives the
+    per-group objects and, after the conversion history has run, what the different handles read."""
     tmo = env()['tmo']
     rs = [build_rxn(case, s) for s in case['rxns']]
     k = case['kind']
-    if k == 'single': return rs[0], [rs[0]]
-    if k == 'parallel':
-        o = tmo.ParallelReaction(rs); return o, [o[i] for i in range(len(rs))]
-    if k == 'series':
-        o = tmo.SeriesReaction(rs); return o, [o[i] for i in range(len(rs))]
-    parts, members = [], []
-    for pk, idx in case['parts']:
-        sub = [rs[i] for i in idx]
-        if pk == 'single':
-            parts.append(sub[0]); members.append(sub[0])
-        else:
-            o = tmo.ParallelReaction(sub) if pk == 'parallel' else tmo.SeriesReaction(sub)
-            parts.append(o); members += [o[i] for i in range(len(sub))]
-    return tmo.ReactionSystem(*parts), members
+    if k == 'single':
+        obj, members, gobjs = rs[0], [rs[0]], [rs[0]]
+    elif k in ('parallel', 'series'):
+        obj = tmo.ParallelReaction(rs) if k == 'parallel' else tmo.SeriesReaction(rs)
+        members, gobjs = [obj[i] for i in range(len(rs))], [obj]
+    else:
+        parts, members = [], []
+        for pk, idx in case['parts']:
+            sub = [rs[i] for i in idx]
+            if pk == 'single':
+                parts.append(sub[0]); members.append(sub[0])
+            else:
+                o = tmo.ParallelReaction(sub) if pk == 'parallel' else tmo.SeriesReaction(sub)
+                parts.append(o); members += [o[i] for i in range(len(sub))]
+        obj, gobjs = tmo.ReactionSystem(*parts), parts
+    if case.get('xhist'):
+        groups = groups_of(case)
+        # every handle is taken before the first assignment: items (above), slices and items of slices
+        slices = {}
+        for op in case['xhist']:
+            if op[0] == 'sliceX' and (op[1], op[2]) not in slices:
+                sl = gobjs[op[1]][op[2]:]
+                slices[(op[1], op[2])] = (sl, [sl[i] for i in range(len(groups[op[1]][1]) - op[2])])
+        for op in case['xhist']:
+            o = op[0]
+            if o == 'itemX': members[op[1]].X = op[2]
+            elif o == 'sysX': obj.X = op[1]
+            elif o in ('setX', 'setXs'): gobjs[op[1]].X = op[2]
+            elif o == 'idxX': gobjs[op[1]].X[op[2]] = op[3]
+            elif o == 'sliceX': slices[(op[1], op[2])][0].X = op[3]
+        if extra is not None:
+            fresh = []
+            for (gk, idx), g in zip(groups, gobjs):
+                fresh += [float(g.X)] if gk == 'single' else [float(g[i].X) for i in range(len(idx))]
+            seen = {'old_items': [float(m.X) for m in members], 'fresh_items': fresh,
+                    'set_arrays': [x for (gk, idx), g in zip(groups, gobjs) for x in ([float(g.X)] if gk == 'single' else [float(v) for v in g.X])]}
+            for (g, lo), (sl, items) in slices.items():
+                v = list(fresh); off = groups[g][1][0] + lo
+                v[off:off + len(items)] = [float(x) for x in sl.X]
+                seen[f'slice_{g}_{lo}'] = v
+                v = list(fresh); v[off:off + len(items)] = [float(i.X) for i in items]
+                seen[f'slice_items_{g}_{lo}'] = v
+            extra['seen'] = seen
+    return obj, members
 
 def make_stream(case):
     tmo = env()['tmo']
@@ -192,7 +303,8 @@ def canon_dH(x):
 def run_impl(case):
     env()
     out = {}
-    obj, members = build_obj(case)
+    extra = {}
+    obj, members = build_obj(case, extra)
     dhs = []
     for m in members:
         try:
@@ -200,6 +312,8 @@ def run_impl(case):
         except Exception as ex:
             dhs.append([errname(ex), []])
     out['dH'] = dhs
+    if 'seen' in extra:
+        out['seen'] = {k: [fr_json(frac(x)) for x in v] for k, v in extra['seen'].items()}
     if case['op'] == 'dH':
         return out
     s = make_stream(case)
@@ -224,10 +338,14 @@ def cerr(e):
 
 def crxn(case, spec):
     ph = case['phases']; P = max(1, len(ph))
-    terms = clist([f'({cnat(ph.index(p) if ph else 0)}, {cnat(IDS.index(i))}, {q(c)})' for p, i, c in spec['terms']])
-    t = (f'(mk_reaction {cbool(spec["form"] == "str")} {cnat(N)} {cnat(P)} {terms} '
-         f'(Some {cnat(IDS.index(spec["reactant"]))}) {q(spec["X"])} {cbool(spec["basis"] == "wt")} '
-         f'{clist([PH[p] for p in ph], cnat)})')
+    def one(terms, X):
+        ts = clist([f'({cnat(ph.index(p) if ph else 0)}, {cnat(IDS.index(i))}, {q(c)})' for p, i, c in terms])
+        return (f'(mk_reaction {cbool(spec["form"] == "str")} {cnat(N)} {cnat(P)} {ts} '
+                f'(Some {cnat(IDS.index(spec["reactant"]))}) {q(X)} {cbool(spec["basis"] == "wt")} '
+                f'{clist([PH[p] for p in ph], cnat)})')
+    t = one(spec['terms'], spec['X'])
+    if spec.get('plus'):
+        t = f'(rsum {qlist(MW * P)} {t} {one(spec["plus"]["terms"], spec["plus"]["X"])})'
     if spec['rebase']:
         t = f'(rebase {qlist(MW * P)} {t} {cbool(spec["rebase"] == "wt")})'
     return t
@@ -240,6 +358,14 @@ def cobj(case):
     parts = [f'(mk_set {KIND[k]} {clist([rs[i] for i in idx])})' for k, idx in case['parts']]
     return f'(mk_system {clist(parts)})'
 
+def cxops(case):
+    return clist([f'(XWrite {cnat(w[1])} {q(w[2])})' if w[0] == 'w' else f'(XRange {cnat(w[1])} {qlist(w[2])})'
+                  for w in flat_writes(case)])
+
+def cobj_after(case):
+    """the object as the call sees it: after the conversion history, if there is one"""
+    return f'(xhist_res {cobj(case)} {cxops(case)})' if case.get('xhist') else cobj(case)
+
 CHEM = (f'(mkchem {qlist(HF)} {qlist(MW)} {qlist(HVAP)} {qlist(HFUS)} {clist([PH[p] for p in PREF], cnat)})')
 
 def coq_case(case, out):
@@ -249,11 +375,14 @@ def coq_case(case, out):
         if e is None and len(v) != 1:
             return 'false'                      # dH is not a scalar: nothing the model could equal
         exp.append(f'({cerr(e)}, {q(F(v[0])) if e is None else "0"})')
-    t = f'(dHs_eqb {CHEM} {cobj(case)} members_of {clist(exp)})'
+    t = f'(dHs_eqb {CHEM} {cobj_after(case)} members_of {clist(exp)})'
+    if case.get('xhist'):
+        seen = clist([qlist([F(x) for x in v]) for k, v in sorted(out.get('seen', {}).items())])
+        t = f'({t} && xs_eqb {cobj(case)} {cxops(case)} {seen})'
     if case['op'] == 'dH':
         return t
     ok = out['err'] is None
-    th = (f'(thermal_eqb {qlist(CN * P)} {qlist(HF * P)} {qlist(MW * P)} {cobj(case)} {cbool(case["op"] == "adiabatic")} '
+    th = (f'(thermal_eqb {qlist(CN * P)} {qlist(HF * P)} {qlist(MW * P)} {cobj_after(case)} {cbool(case["op"] == "adiabatic")} '
           f'{cbool(not case["not_stream"])} (mkS {qlist(case["flows"])} {q(case["T"])}) {q(case["Q"])} {q(F(out["Hnet0"]))} '
           f'{cerr(out["err"])} {qlist([F(x) for x in out["mol"]]) if ok else "[]"} {q(F(out["T"])) if ok else "0"} '
           f'{q(F(out["Hnet"])) if ok else "0"})')
@@ -261,7 +390,7 @@ def coq_case(case, out):
 
 def coq_show(case, out):
     P = max(1, len(case['phases']))
-    return (f'(match {cobj(case)} with Ok o => (map (dH {CHEM}) (members_of o), '
+    return (f'(match {cobj_after(case)} with Ok o => (map (dH {CHEM}) (members_of o), '
             f'adiabatic (stubH {qlist(CN * P)}) (stubSolve {qlist(CN * P)}) {qlist(HF * P)} true {qlist(MW * P)} o '
             f'(mkS {qlist(case["flows"])} {q(case["T"])}) {q(case["Q"])}) | Err e => ([], (Some e, mkS [] 0)) end)')
 
@@ -272,6 +401,13 @@ def nontrivial(case, out):
 def classify(case, out):
     ks = ['kind:' + case['kind'], 'phases:' + (''.join(case['phases']) or 'none'), 'op:' + case['op'],
           'basis:' + (case['rxns'][0]['rebase'] or case['rxns'][0]['basis']), 'T:%g' % case['T']]
+    for r in case['rxns']:
+        if r['form'] == 'array': ks.append('form:array')
+        if r.get('plus'): ks.append('form:sum')
+        cnt = {}
+        for t in r['terms'] + (r['plus']['terms'] if r.get('plus') else []): cnt.setdefault(t[1], set()).add(t[0])
+        if any(len(v) > 1 for v in cnt.values()): ks.append('chemical-in-two-phases')
+    for o in case.get('xhist', []): ks.append('xhist:' + o[0])
     if out.get('err'): ks.append('error:' + out.get('err_cls', '?'))
     elif case['op'] != 'dH': ks.append('returned')
     for e, v in out['dH']:
@@ -282,13 +418,14 @@ def classify(case, out):
 LAT = {('l', 'g'): lambda k: HVAP[k], ('l', 's'): lambda k: -HFUS[k], ('g', 'l'): lambda k: -HVAP[k],
        ('g', 's'): lambda k: -(HVAP[k] + HFUS[k]), ('s', 'l'): lambda k: HFUS[k], ('s', 'g'): lambda k: HFUS[k] + HVAP[k]}
 
-def expected_dH(case, spec):
-    """conversion x stoichiometry-weighted heats of formation incl. latent heats (per mass on a wt basis); None if a
-    phase has no latent-heat meaning"""
-    basis = spec['rebase'] or spec['basis']
-    # molar stoichiometry per mole of reactant
-    st = {(p, i): F(c) / (MW[IDS.index(i)] if spec['basis'] == 'wt' else 1) for p, i, c in spec['terms']}
-    r = next(k for k in st if k[1] == spec['reactant'])
+def heat_per_reactant(case, spec, terms):
+    """sum((Hf + latent) * molar stoichiometry) per mole of reactant; None if a phase has no latent-heat meaning"""
+    ph = case['phases']
+    st = {}
+    for p, i, c in terms:
+        st[(p, i)] = F(c) / (MW[IDS.index(i)] if spec['basis'] == 'wt' else 1)
+    rkeys = [k for k in st if k[1] == spec['reactant'] and st[k] != 0]
+    r = min(rkeys, key=lambda k: ph.index(k[0]) if ph else 0)     # first phase row in which the reactant appears
     tot = F(0)
     for (p, i), c in st.items():
         k = IDS.index(i)
@@ -297,7 +434,18 @@ def expected_dH(case, spec):
             if (PREF[k], p) not in LAT: return None
             lat = LAT[(PREF[k], p)](k)
         tot += (HF[k] + lat) * c / -st[r]
-    tot *= F(spec['X'])
+    return tot
+
+def expected_dH(case, spec, X=None):
+    """conversion x stoichiometry-weighted heats of formation incl. latent heats (per mass on a wt basis)"""
+    basis = spec['rebase'] or spec['basis']
+    h = heat_per_reactant(case, spec, spec['terms'])
+    if h is None: return None
+    tot = F(spec['X'] if X is None else X) * h
+    if spec.get('plus'):
+        h2 = heat_per_reactant(case, spec, spec['plus']['terms'])
+        if h2 is None: return None
+        tot += F(spec['plus']['X']) * h2
     if basis == 'wt': tot /= MW[IDS.index(spec['reactant'])]
     return tot
 
@@ -310,8 +458,10 @@ def oracle(case):
     ph = case['phases']; P = max(1, len(ph))
     # clause 1: reported heat of reaction
     dhs = []
-    for m, spec in zip(members, case['rxns']):
-        exp = expected_dH(case, spec)
+    Xf = final_X(case)          # the conversions the object works with after every assignment
+    via = ' (member handle obtained before the conversions were reassigned)' if case.get('xhist') else ''
+    for m, spec, xk in zip(members, case['rxns'], Xf):
+        exp = expected_dH(case, spec, xk)
         try:
             got = m.dH
         except Exception as ex:
@@ -320,7 +470,7 @@ def oracle(case):
         if np.ndim(got) != 0:
             return f'dH-item: dH of a {type(m).__name__} is an array {np.asarray(got).tolist()}, expected the number {float(exp) if exp is not None else None}'
         if exp is not None and not approx(float(got), float(exp)):
-            return f'dH: reported {float(got)}, conversion x sum((Hf+latent)*stoichiometry) = {float(exp)}'
+            return f'dH: reported {float(got)}{via}, conversion x sum((Hf+latent)*stoichiometry) = {float(exp)} with X = {xk}'
         dhs.append(float(got))
     if case['op'] == 'dH' or case['not_stream']: return None
     s = make_stream(case)
@@ -344,6 +494,8 @@ def oracle(case):
             v = st.imol.data if (m._basis == 'mol') else st.imass.data
             return float(v[m._reactant_index])
         fresh = [build_rxn(case, spec) for spec in case['rxns']]    # independent single reactions, same definitions
+        if case.get('xhist'):
+            for r_, xk in zip(fresh, Xf): r_.X = xk
         groups = [[case['kind'], list(range(len(members)))]] if case['kind'] != 'system' else case['parts']
         for pk, idx in groups:
             if pk == 'parallel':
@@ -369,7 +521,7 @@ def oracle(case):
             h.append(one.H)
     lat = [0.0] * (P * N)
     for spec in case['rxns']:
-        for p, i, c in spec['terms']:
+        for p, i, c in spec['terms'] + (spec['plus']['terms'] if spec.get('plus') else []):
             if p is not None and p != PREF[IDS.index(i)]:
                 lat[ph.index(p) * N + IDS.index(i)] = float(LAT[(PREF[IDS.index(i)], p)](IDS.index(i)))
     kirchhoff = float(np.dot(np.array(h) - np.array(lat), mol1 - mol0))
